@@ -175,7 +175,7 @@ PROPS = {
             "C09_std_to_array", "C09_std_sorted_by_key", "C09_std_min_max_by_key", "C09_row_to_value_pure",
             "C09_std_sorted", "C09_std_min_max", "C09_std_passthrough",
             "C09_tree_orderings_agree_on_samples"]},
-        n_quick=400, n_thorough=4000,
+        n_quick=300, n_thorough=4000,
         gen_timeout=3000,
         gates=["fn.filter", "fn.map", "fn.any", "fn.min", "fn.max", "fn.min_by_key", "fn.max_by_key", "fn.sorted",
                "fn.sorted_by_key", "fn.to_array", "size.0", "size.1", "size.2", "size.3-10", "size.11-40",
@@ -183,11 +183,13 @@ PROPS = {
                "key.nil", "dup_values", "ties", "mixed_int_real_equal", "nan_key", "negzero_key",
                "cb.script_fn", "cb.closure_counter", "cb.allocates", "cb.nested_std", "cb.mutates_input",
                "cb.arity1", "cb.arity2", "cb.arity3", "input.non_table", "input.host_built", "input.host_rooted",
-               "input.insert_value", "lowmem.host_rooted",
+               "input.insert_value", "lowmem.host_rooted", "lowmem.insert_value", "corpus.F-1a", "corpus.F-1b",
                "stream.lowmem", "lowmem.ok", "lowmem.gc", "obs.ok", "predict", "spec_only"],
-        rule="one generated SCRIPT per case that calls ONE std function (filter, map, any, min, max, min_by_key, "
+        rule="the two witnesses of the repaired finding F-1 (findings/C09) first, then one generated SCRIPT per case "
+             "that calls ONE std function (filter, map, any, min, max, min_by_key, "
              "max_by_key, sorted, sorted_by_key, to_array) ONCE on one input: tables of 0, 1, 2 .. 40 entries built by "
-             "the script or by the host (Vm::insert_value through a native), integer / real / string / nil keys, "
+             "the script or by the host (through a native: Vm::insert_value, or init_table / init_string / insert with "
+             "the guards held; the host's table travels in the case and the script must receive exactly it), integer / real / string / nil keys, "
              "integer / real (NaN, -0.0, infinities, 2^53+1 next to 2^53 as a real) / string / nil / nested-table "
              "values from small pools (duplicates, ties, numerically equal keys of different kinds), non-table inputs; "
              "callbacks from a menu of script functions of arity 1-3 (truthiness, comparisons, constants, arithmetic "
@@ -196,11 +198,14 @@ PROPS = {
              "input table (min/max/sorted_by_key only: the natives work on the entries present at call time); the "
              "callback given to the library is a wrapper that calls the real one and logs arguments and result "
              "through the native log1; the input is logged just before the call; result and input are read back as "
-             "owned trees after the run; every third script runs a second time under a 24-200 KiB memory limit "
-             "(collections inside the callbacks); every run in a child process (a crash is an observation). "
+             "owned trees after the run; every third script and every script with a host-built input runs a second "
+             "time under a memory limit of 50-200 % of what the first run allocated (collections inside the "
+             "callbacks and inside the host's table construction); every run in a child process (a crash is an observation). "
              "Code 2: the result differs from StdSpec applied to the logged input with cb = the logged calls, or "
              "the sequence of callback invocations is not 'every entry once, in table order' (any: up to the first "
-             "truthy one), or the input changed though the callback does not touch it, or the run crashed; "
+             "truthy one), or the input changed though the callback does not touch it, or the script did not receive "
+             "the table the host built, or the run crashed; no known classes (F-1, Vm::insert_value unrooted, was "
+             "repaired by a1ac5c5 and is an ordinary violation if it comes back); "
              "code 1: the whole run (kind, globals, log) differs from RefSem.eval_program (scripts with script-built "
              "tables and callbacks that do not modify the input). Resource errors are skipped and counted. "
              "non-trivial = input with >= 2 entries; distinct = distinct case term",
@@ -231,7 +236,8 @@ PROPS = {
             "table keys are nil, integers, strings and non-zero non-NaN reals; trees deeper than 6 levels are cut on "
             "both sides; NaN payloads are not compared; function values compare as one opaque mark",
             "key functions that modify the table being processed: the specification is applied to the entries "
-            "present at call time (behaviour since 662697a); RefSem is not consulted there",
+            "present at call time (behaviour since 662697a, which RefSem now models too); the comparison with RefSem "
+            "is still restricted to key functions that do not modify the input",
         ],
     ),
     "C15": dict(
